@@ -10,15 +10,37 @@ import Nq.Spec.Pop3Ref
 namespace Nq.Lemmas.Pop3
 open Nq Nq.Pop3 Nq.Pop3Ref
 
+theorem drop_takeWhile_length {α} (p : α → Bool) (l : List α) : l.drop (l.takeWhile p).length = l.dropWhile p := by
+  induction l with
+  | nil => rfl
+  | cons c l ih =>
+    by_cases h : p c = true
+    · simp [List.takeWhile_cons, List.dropWhile_cons, h, ih]
+    · simp [List.takeWhile_cons, List.dropWhile_cons, h]
+
+/-- does the argument end after its leading digit run, or go on with a space? -/
+def endsOk (arg : Bytes) : Bool :=
+  match arg.dropWhile isDigit with
+  | [] => true
+  | c :: _ => c == SP
+
 /-- msgno() in terms of the unbounded decimal value of the leading digit run -/
 def msgnoSpec (s : Sess) (arg : Bytes) : MsgNo :=
   let ds := arg.takeWhile isDigit
-  if ds = [] then .err (errLine "syntax error")
+  if ds = [] ∨ endsOk arg = false then .err (errLine "syntax error")
   else if decVal ds = 0 then .err (errLine "messages are counted from 1")
   else if decVal ds > s.msgs.length ∨ decVal ds > INT_MAX then .err (errLine "not that many messages")
   else match s.msgs[decVal ds - 1]? with
     | some m => if m.del then .err (errLine "already deleted") else .ok (decVal ds - 1)
     | none => .err (errLine "not that many messages")
+
+theorem junkAfter_eq (arg : Bytes) : junkAfter arg (arg.takeWhile isDigit).length = !endsOk arg := by
+  have hs : Gen.Pop3Tab.msgnoStrict = true := rfl
+  unfold junkAfter junkAfterWith endsOk
+  rw [hs, drop_takeWhile_length]
+  cases arg.dropWhile isDigit with
+  | nil => rfl
+  | cons c t => simp [bne]
 
 theorem scan_sat (arg : Bytes) :
     scanUlong arg = (min (decVal (arg.takeWhile isDigit)) (U64 - 1), (arg.takeWhile isDigit).length) := by
@@ -29,12 +51,21 @@ theorem scan_sat (arg : Bytes) :
 theorem msgno_eq_spec (s : Sess) (arg : Bytes) : msgno s arg = msgnoSpec s arg := by
   unfold msgno msgnoSpec
   rw [scan_sat]
-  simp only
+  simp only [junkAfter_eq]
+  generalize endsOk arg = eo
   generalize arg.takeWhile isDigit = ds
-  by_cases h0 : ds = []
-  · simp [h0]
-  have h0' : ds.length ≠ 0 := by simpa using h0
-  simp only [h0, h0', if_false]
+  by_cases h0 : ds = [] ∨ eo = false
+  · have : ds.length = 0 ∨ (!eo) = true := by
+      rcases h0 with h | h
+      · left; simp [h]
+      · right; simp [h]
+    rw [if_pos this, if_pos h0]
+  have h0' : ¬ (ds.length = 0 ∨ (!eo) = true) := by
+    intro h; apply h0
+    rcases h with h | h
+    · left; simpa using h
+    · right; simpa using h
+  rw [if_neg h0', if_neg h0]
   by_cases hbig : decVal ds ≥ U64
   · have e : min (decVal ds) (U64 - 1) = U64 - 1 := Nat.min_eq_right (by unfold U64 at *; omega)
     rw [e]
@@ -56,14 +87,6 @@ theorem msgno_eq_spec (s : Sess) (arg : Bytes) : msgno s arg = msgnoSpec s arg :
       cases s.msgs[decVal ds - 1]? <;> rfl
 
 /-! ### TOP: the limit, saturation included -/
-
-theorem drop_takeWhile_length {α} (p : α → Bool) (l : List α) : l.drop (l.takeWhile p).length = l.dropWhile p := by
-  induction l with
-  | nil => rfl
-  | cons c l ih =>
-    by_cases h : p c = true
-    · simp [List.takeWhile_cons, List.dropWhile_cons, h, ih]
-    · simp [List.takeWhile_cons, List.dropWhile_cons, h]
 
 /-- the optional second number of TOP (unbounded) -/
 def topCount (arg : Bytes) : Option Nat :=
@@ -135,6 +158,21 @@ theorem top_decoded (arg data rest : Bytes) (h : data.length < U64 - 1) :
       rw [blastLoop_eq_lines, getlns_nil_lines]
       exact decode_top (lines data) k rest (lines_noLF data)
     · rw [if_neg hk, whole, topLines_all k (lines data) (by have := lines_length data; omega)]
+
+/-- TOP uses the limit of its second number … -/
+theorem limitFor_top (verb arg : Bytes) (h : verbIs vTop verb = true) : limitFor verb arg = topLimit arg := by
+  simp [limitFor, limitWith, h]
+
+/-- … RETR never limits (the source gives RETR its own handler: `Gen.Pop3Tab.retrWhole`, regenerated from
+qmail-pop3d.c on every run; this proof fails if RETR goes back to sharing pop3_top() with TOP) -/
+theorem limitFor_retr (verb arg : Bytes) (h : verbIs vTop verb = false) : limitFor verb arg = 0 := by
+  have hr : Gen.Pop3Tab.retrWhole = true := rfl
+  simp [limitFor, limitWith, h, hr]
+
+theorem retr_decoded (data rest : Bytes) : popDecode (blast 0 data ++ rest) = some (lines data ++ [[]], rest) := by
+  unfold popDecode blast
+  rw [blastLoop_eq_lines, getlns_nil_lines]
+  exact decode_all (lines data) true rest (lines_noLF data)
 
 /-! ### qmail-popup: main() from the input bytes to descriptor 3 -/
 
